@@ -50,6 +50,8 @@ def _session(ops):
     iters = []
     lines = []
     fed = []           # all valid bytes fed so far
+    deferred = []      # bytes the tokenizer took in during a feeding call that was then left by an exception: Parser.feed
+                       # decodes only at the end of a successful call, so their messages show up with the next successful feed
     got = []           # canon text of everything retrieved
     clean = True       # no failing feed so far (the oracle's reference only applies then)
     fail = None
@@ -66,19 +68,50 @@ def _session(ops):
                 _t.sleep(op[1])              # real time passes between two feeding calls: it must not matter
                 lines.append(None)
             elif k == 'feed':
+                buf = _as(op[1], op[2] if len(op) > 2 else 'list')
                 try:
-                    p.feed(_as(op[1], op[2] if len(op) > 2 else 'list'))
-                    fed.extend(op[1])
+                    p.feed(buf)
+                    fed.extend(deferred + list(op[1]))
+                    deferred = []
                     lines.append('none')
                 except (ValueError, TypeError) as e:
-                    clean = False
                     lines.append('err ' + exc_name(e))
-                    if all(isinstance(b, int) and 0 <= b <= 255 for b in op[1]) and fail is None:
+                    bad = [i for i, b in enumerate(op[1]) if not (isinstance(b, int) and 0 <= b <= 255)]
+                    if not bad and fail is None:
                         fail = f'feed() raised {type(e).__name__} on bytes that are all in 0..255: {e}'
+                    if bad and isinstance(e, ValueError):
+                        # the items before the refused one were handed over one by one: they count as fed, exactly as
+                        # with feed_byte() calls of which the last one raises
+                        deferred.extend(op[1][:bad[0]])
+                    else:
+                        clean = False
+                # the buffer belongs to the caller again: a device loop reuses it for the next read
+                if isinstance(buf, bytearray):
+                    buf[:] = bytes([0x81, 0xf7, 0x7f, 0x00] * len(buf))[:len(buf)]
+                elif isinstance(buf, list):
+                    buf[:] = [0xf7, 0x90, 0xf0] * 2
+            elif k == 'feedgen':
+                # a one-shot iterable that fails after handing over its bytes (a device read that times out):
+                # its own exception comes out of feed(), the bytes it delivered before count as fed
+                class _DeviceTimeout(Exception):
+                    pass
+
+                def _g(bs=op[1]):
+                    for b in bs:
+                        yield b
+                    raise _DeviceTimeout('device read timed out')
+                try:
+                    p.feed(_g())
+                    fail = fail or 'feed() swallowed the exception raised by the iterable it was given'
+                    lines.append('none')
+                except _DeviceTimeout:
+                    lines.append('none')
+                deferred.extend(op[1])
             elif k == 'feedbyte':
                 try:
                     p.feed_byte(op[1])
-                    fed.append(op[1])
+                    fed.extend(deferred + [op[1]])
+                    deferred = []
                     lines.append('none')
                 except (ValueError, TypeError) as e:
                     clean = False
@@ -202,7 +235,7 @@ def enc_op(op):
     k = op[0]
     if k == 'pause':
         return None
-    if k == 'feed':
+    if k in ('feed', 'feedgen'):
         return 'pfeed ' + ' '.join(map(str, op[1]))
     if k == 'feedbyte':
         return 'pfeedbyte %d' % op[1]
@@ -241,6 +274,78 @@ def history_from_cuts(rng, stream, cuts, retrieval=0.5, bad=0.0):
             else:
                 ops.append(('iternext', rng.randrange(niter)))
     return ops
+
+
+def special_sessions(rng, n):
+    """Sessions built for mechanisms that only show after a particular earlier step (shared by C04, C05, C06):
+    a feeding call that is left by an exception (a refused item, an iterable that fails) after it completed a message, then
+    more bytes; a sysex opened in one call and continued by long bytes/bytearray chunks (pure payload, with real-time bytes,
+    or with another status byte that aborts it); a message cut short, then a chunk that is exactly one complete channel
+    message, then stray data bytes."""
+    hs = []
+    chan = [t for t in msgs.TYPE_NAMES if t in ('note_on', 'note_off', 'control_change', 'program_change', 'pitchwheel', 'polytouch', 'aftertouch')]
+    for i in range(n):
+        ops = []
+        r = i % 4
+        if r == 0:
+            # fault after a completed message, then the rest
+            t, d = msgs.random_message(rng, max_sysex=3, types=chan)
+            enc = msgs.encode_ref(t, d)
+            head = [] if rng.random() < 0.5 else [rng.randint(0, 127)]
+            if rng.random() < 0.5:
+                ops.append(('feedgen', head + enc + ([enc[0]] if rng.random() < 0.3 else [])))
+            else:
+                ops.append(('feed', head + enc + [rng.choice([256, -1, 1000])] + [1, 2], rng.choice(['list', 'tuple', 'iter'])))
+            ops.append(('feed', [rng.randint(0, 127) for _ in range(rng.randint(1, 3))], rng.choice(['list', 'bytes'])))
+            ops.append(('pending',))
+            t2, d2 = msgs.random_message(rng, max_sysex=3)
+            ops.append(('feed', msgs.encode_ref(t2, d2), 'list'))
+            ops.append(('pending',)); ops.append(('get',)); ops.append(('get',))
+        elif r == 1:
+            # a sysex continued by long chunks
+            ops.append(('feed', [0xf0] + [rng.randint(0, 127) for _ in range(rng.randint(0, 3))], rng.choice(['list', 'bytes'])))
+            for _ in range(rng.randint(1, 3)):
+                ln = rng.choice([31, 32, 33, 40, 64, 100])
+                chunk = [rng.randint(0, 127) for _ in range(ln)]
+                v = rng.random()
+                if v < 0.35:
+                    pos = rng.randrange(ln)
+                    t, d = msgs.random_message(rng, max_sysex=2, types=chan)
+                    chunk[pos:pos] = msgs.encode_ref(t, d)          # another status byte: the sysex is abandoned
+                elif v < 0.55:
+                    chunk[rng.randrange(ln)] = rng.choice(parsing.DEFINED_RT)
+                elif v < 0.7:
+                    chunk[rng.randrange(ln)] = 0xf7
+                ops.append(('feed', chunk, rng.choice(['bytes', 'bytearray', 'bytearray', 'list'])))
+                if rng.random() < 0.5:
+                    ops.append(('pending',))
+            ops.append(('feed', [0xf7], 'list'))
+            ops.append(('pending',)); ops.append(('get',))
+        elif r == 2:
+            # cut short, then exactly one complete channel message in one chunk, then stray data bytes
+            t, d = msgs.random_message(rng, max_sysex=3, types=[x for x in msgs.TYPE_NAMES if x not in msgs.REALTIME and x != 'tune_request'])
+            enc = msgs.encode_ref(t, d)
+            ops.append(('feed', enc[:rng.randrange(1, len(enc))], rng.choice(['list', 'bytes'])))
+            t2, d2 = msgs.random_message(rng, types=chan)
+            ops.append(('feed', msgs.encode_ref(t2, d2), rng.choice(['bytes', 'bytearray', 'list', 'tuple'])))
+            ops.append(('feed', [rng.randint(0, 127) for _ in range(rng.randint(1, 3))] + ([0xf7] if rng.random() < 0.4 else []), rng.choice(['list', 'bytes'])))
+            ops.append(('pending',)); ops.append(('get',)); ops.append(('get',))
+        else:
+            # two parsers fed alternately byte by byte while both are inside a message
+            pair = []
+            for _p in range(2):
+                o = []
+                for _m in range(rng.randint(1, 3)):
+                    t, d = msgs.random_message(rng, max_sysex=3, types=[x for x in msgs.TYPE_NAMES if x not in msgs.REALTIME and x != 'tune_request'])
+                    for b in msgs.encode_ref(t, d):
+                        o.append(('feedbyte', b) if rng.random() < 0.6 else ('feed', [b], rng.choice(['list', 'bytes'])))
+                o.append(('pending',))
+                pair.append(o)
+            order = ''.join('ab'[j % 2] for j in range(len(pair[0]) + len(pair[1]) + 2))
+            hs.append(['PAIR', pair[0], pair[1], order])
+            continue
+        hs.append(ops)
+    return hs
 
 
 def gen(ck):
@@ -306,6 +411,7 @@ def gen(ck):
             pair.append(ops)
         order = ''.join(rng.choice('ab') for _ in range(len(pair[0]) + len(pair[1]) + 2))
         hs.append(['PAIR', pair[0], pair[1], order])
+    hs.extend(special_sessions(rng, 2000 if not thorough else 20000))
     # whole random streams in one call as bytes / bytearray (the container type must not matter)
     for _ in range(1500 if not thorough else 20000):
         stream = parsing.random_stream(rng, rng.randint(1, 40), rng.choice([0.2, 0.4]))
